@@ -16,6 +16,21 @@ func (ex *Exec) siteLetNames() map[string]bool {
 	return m
 }
 
+func mentionsAny(e *E, names map[string]bool) bool {
+	if e == nil {
+		return false
+	}
+	if e.Op == "id" && names[e.Name] {
+		return true
+	}
+	for _, a := range e.Args {
+		if mentionsAny(a, names) {
+			return true
+		}
+	}
+	return false
+}
+
 func (ex *Exec) mentionsUnboundSiteLet(s *State, e *E) bool {
 	names := ex.siteLetNames()
 	if len(names) == 0 {
